@@ -417,6 +417,18 @@ def translate():
     for n in (ast.walk(fn) if fn else []):
         if isinstance(n, ast.Try):
             structure['send_close_handlers'] = handler_names(n)
+    # `_close_socket`: is `<sock>.close()` reached whatever `<sock>.shutdown()` does?  (finding D12: shutdown() raises ENOTCONN
+    # after a reset) - true when close() sits in the `finally` clause of a `try` whose body calls shutdown(), on the same object
+    structure['close_after_failed_shutdown'] = False
+    fn = find_func(se_cls, '_close_socket') if se_cls else None
+    for n in (ast.walk(fn) if fn else []):
+        if isinstance(n, ast.Try) and n.finalbody:
+            def _calls(stmts, attr):
+                return [ast.unparse(c.func.value) for st in stmts for c in ast.walk(st)
+                        if isinstance(c, ast.Call) and isinstance(c.func, ast.Attribute) and c.func.attr == attr]
+            shut, clo = _calls(n.body, 'shutdown'), _calls(n.finalbody, 'close')
+            if shut and clo and set(shut) & set(clo) and not n.handlers:
+                structure['close_after_failed_shutdown'] = True
     if not structure['run_tries'] or not structure['feed_handlers'] or not structure['write_checks']:
         problems.append('handler structure of session.run / websocket.feed / session.write not found')
     # ---- which State object does code run at finalisation time act on?  (C17: an abandoned generator may be
@@ -645,6 +657,9 @@ def sendallUnderLock : Bool := {'true' if structure['sendall_under_lock'] else '
 def sendPongHandlers : List String := [{', '.join(lean_str(h) for h in structure['send_pong_handlers'])}]
 def autoPingHandlers : List String := [{', '.join(lean_str(h) for h in structure['auto_ping_handlers'])}]
 def sendCloseHandlers : List String := [{', '.join(lean_str(h) for h in structure['send_close_handlers'])}]
+/-- `_close_socket`: `<sock>.close()` is in the `finally` clause of a handler-less `try` whose body calls `<sock>.shutdown()`
+    (the descriptor is released also when shutdown() raises - ENOTCONN after a reset; finding D12) -/
+def closeAfterFailedShutdown : Bool := {'true' if structure['close_after_failed_shutdown'] else 'false'}
 /-- code of generator methods of class WebSocket that runs when the generator is finalised (`except GeneratorExit`
     handlers, `finally` blocks): (method, what it calls / reads on self, "captured" if it is handed the State object the
     generator captured when it started, "current" if it goes through whatever `self.state` is at that moment) -/
